@@ -567,7 +567,7 @@ def gen_meta(rng, nr, tier, kind):
     raise ValueError(kind)
 
 
-MIX = {'quick': [('periodogram', 60), ('pcsd', 40), ('mtpsd', 36), ('mtcsd', 24), ('welch', 40), ('an_psd', 12), ('an_periodogram', 10), ('an_mt', 10)],
+MIX = {'quick': [('periodogram', 160), ('pcsd', 100), ('mtpsd', 90), ('mtcsd', 60), ('welch', 100), ('an_psd', 30), ('an_periodogram', 25), ('an_mt', 25)],
        'thorough': [('periodogram', 900), ('pcsd', 500), ('mtpsd', 400), ('mtcsd', 250), ('welch', 500), ('an_psd', 120), ('an_periodogram', 100), ('an_mt', 100)]}
 
 
